@@ -10,5 +10,6 @@ __attribute__((weak)) std::string run_flow_queen_nc(const vj::value&) { throw st
 __attribute__((weak)) std::string run_flow_mesh(const vj::value&) { throw std::runtime_error("flow: not in this build"); }
 __attribute__((weak)) std::string run_adi_case(const vj::value&) { throw std::runtime_error("adi: not in this build"); }
 __attribute__((weak)) std::string run_grid_case(const vj::value&) { throw std::runtime_error("grid: not in this build"); }
+__attribute__((weak)) std::string run_big_case(const vj::value&) { throw std::runtime_error("big: not in this build"); }
 __attribute__((weak)) std::string run_uf_case(const vj::value&) { throw std::runtime_error("uf: not in this build"); }
 }
